@@ -33,7 +33,8 @@ CONSTANTS Keys, Clients, MaxSize, Costs, TTLs, QCap, BatchMax, MaxEnt, MaxTime,
           FixD6,          \* REMOVE event is not ignored for an entry already removed by eviction/expiry
           FixD7,          \* removed flag set after the deadline re-check; aborted expiry re-schedules
           FixD16,         \* policy total compared as a signed value
-          FixD10a         \* writers give up their blocking send once the store is cancelled
+          FixD10a,        \* writers give up their blocking send once the store is cancelled
+          FixD20          \* the expiry re-check and the removal of the map slot are one shard critical section
 
 VARIABLES map, ent, nextId, queue, batch, hadWait, mpc, mpend, evicting, mnew,
           tpc, tpend, tnow, plock, wsize, now, cnow,
@@ -321,6 +322,8 @@ RmFinal(e, reason) ==
           /\ left' = [left EXCEPT ![e] = reason]
           /\ notif' = [notif EXCEPT ![e] = @ + 1] /\ nreason' = [nreason EXCEPT ![e] = reason]
      ELSE UNCHANGED <<map, left, notif, nreason>>
+  \* C04 (lower bound): a slot removed for expiry belongs to an entry whose deadline has passed
+  /\ bad' = IF reason = "EXPIRED" /\ inmap /\ ent[e].dl > now THEN bad \cup {"expired_before_deadline"} ELSE bad
 
 Pend(who) == IF who = "m" THEN mpend ELSE tpend
 SetPend(who, v) == IF who = "m" THEN mpend' = v /\ UNCHANGED tpend ELSE tpend' = v /\ UNCHANGED mpend
@@ -331,11 +334,11 @@ RmIn(who) ==
   /\ IF reason = "EXPIRED"
      THEN /\ ent' = [ent EXCEPT ![e].rm = IF FixD7 THEN @ ELSE TRUE]     \* pinned: flag first (D7)
           /\ SetPend(who, <<e, reason, "recheck">>)
-          /\ UNCHANGED <<map, wsize, notif, nreason, left>>
+          /\ UNCHANGED <<map, wsize, notif, nreason, left, bad>>
      ELSE /\ RmFinal(e, reason)
           /\ SetPend(who, None)
   /\ UNCHANGED <<nextId, mnew, queue, batch, hadWait, mpc, evicting, tpc, tnow, plock, now, cnow, CliV, closed, cancelled,
-                 need, applied, sentDone, nextTag, bad>>
+                 need, applied, sentDone, nextTag>>
 
 RmRecheck(who) ==
   LET e == Pend(who)[1]  reason == Pend(who)[2]
@@ -348,14 +351,30 @@ RmRecheck(who) ==
           THEN /\ ent' = [ent EXCEPT ![e].sc = TRUE, ![e].pw = @ + mnew, ![e].tr = TRUE]
                /\ wsize' = wsize + ent[e].pw + mnew
                /\ evicting' = TRUE
-               /\ UNCHANGED <<map, notif, nreason, left>>
+               /\ SetPend(who, None) /\ mnew' = IF who = "m" THEN 0 ELSE mnew
+               /\ UNCHANGED <<map, notif, nreason, left, bad>>
           ELSE /\ ent' = [ent EXCEPT ![e].sc = IF FixD7 THEN TRUE ELSE @]
-               /\ UNCHANGED <<map, wsize, notif, nreason, left, evicting>>
-     ELSE RmFinal(e, reason) /\ UNCHANGED evicting
+               /\ SetPend(who, None) /\ mnew' = IF who = "m" THEN 0 ELSE mnew
+               /\ UNCHANGED <<map, wsize, notif, nreason, left, evicting, bad>>
+     ELSE IF FixD20
+     THEN \* decided and removed within one shard critical section
+          /\ RmFinal(e, reason) /\ UNCHANGED evicting
+          /\ SetPend(who, None) /\ mnew' = IF who = "m" THEN 0 ELSE mnew
+     ELSE \* the code before the repair D20: the comparison is made without the shard lock, the slot is removed in a
+          \* later critical section (RmDelete) - a SetWithTTL of the key can come in between
+          /\ SetPend(who, <<e, reason, "delete">>)
+          /\ UNCHANGED <<map, ent, wsize, notif, nreason, left, evicting, bad, mnew>>
+  /\ UNCHANGED <<nextId, queue, batch, hadWait, mpc, tpc, tnow, plock, now, cnow, CliV, closed, cancelled,
+                 need, applied, sentDone, nextTag>>
+
+RmDelete(who) ==
+  LET e == Pend(who)[1]  reason == Pend(who)[2] IN
+  /\ plock = who /\ Pend(who) # None /\ Pend(who)[3] = "delete"
+  /\ RmFinal(e, reason)
   /\ SetPend(who, None)
   /\ mnew' = IF who = "m" THEN 0 ELSE mnew
-  /\ UNCHANGED <<nextId, queue, batch, hadWait, mpc, tpc, tnow, plock, now, cnow, CliV, closed, cancelled,
-                 need, applied, sentDone, nextTag, bad>>
+  /\ UNCHANGED <<nextId, queue, batch, hadWait, mpc, evicting, tpc, tnow, plock, now, cnow, CliV, closed, cancelled,
+                 need, applied, sentDone, nextTag>>
 
 EndBatch ==
   /\ mpc = "apply" /\ batch = <<>> /\ mpend = None /\ ~evicting
@@ -417,7 +436,7 @@ Next ==
   \/ \E n \in 1..BatchMax : TakeBatch(n)
   \/ MExit \/ MLock \/ ApplyHead \/ EvDone \/ EndBatch \/ MUnlock
   \/ \E e \in Ids : EvPick(e) \/ ExpPick(e)
-  \/ RmIn("m") \/ RmRecheck("m") \/ RmIn("t") \/ RmRecheck("t")
+  \/ RmIn("m") \/ RmRecheck("m") \/ RmIn("t") \/ RmRecheck("t") \/ RmDelete("m") \/ RmDelete("t")
   \/ TickLock \/ TickUnlock
   \/ \E d \in AdvSteps : Advance(d)
   \/ Finished
@@ -458,6 +477,7 @@ NoBadC03 == "C03_served_after_deadline" \notin bad /\ "C03_served_after_deadline
 \* what holds of the code as it is: a late hit needs a cached clock older than the look-ahead (D9)
 NoBadC03Fresh == "C03_served_after_deadline" \notin bad
 NoBadC06 == "C06_evict_under_capacity" \notin bad
+NoBadC04 == "expired_before_deadline" \notin bad
 NoBadC20 == "C20_barrier" \notin bad
 
 \* C10/C20: every call returns (under fairness)
